@@ -284,6 +284,32 @@ var c14Raw = [][]string{
 	{"{{", "h", ".", "k", "|", "b1", "(", ")", ".", "0", "}}"},
 }
 
+// ... and brackets nested deeper than anybody writes by hand (whatever the tokeniser keeps per open bracket may be
+// bounded at a round number): d brackets of one kind, or of all three in turn, open inside a hash in a hash whose
+// closing braces stand next to each other, next to the closing delimiter, or apart.
+func init() {
+	for _, d := range []int{3, 15, 16, 17, 31, 32, 33, 62, 63, 64, 65, 66, 100, 127, 128, 129, 200, 255, 256, 257, 600} {
+		for kind := 0; kind < 4; kind++ {
+			var open, close []string
+			for x := 0; x < d; x++ {
+				switch []int{0, 1, 2, x % 3}[kind] {
+				case 0:
+					open, close = append(open, "("), append([]string{")"}, close...)
+				case 1:
+					open, close = append(open, "["), append([]string{"]"}, close...)
+				default:
+					open, close = append(open, "{", "k", ":"), append([]string{"}"}, close...)
+				}
+			}
+			inner := append(append(append([]string{}, open...), "7"), close...)
+			c14Raw = append(c14Raw,
+				append(append([]string{"{{", "{", "a", ":", "{", "b", ":"}, inner...), "}", "}", ".", "a", ".", "b", "}}"),
+				append(append([]string{"{{", "{", "a", ":"}, inner...), "}", "}}"),
+				append(append([]string{"{%", "set", "q", "=", "{", "a", ":", "{", "b", ":"}, inner...), "}", "}", "%}", "{{", "q", ".", "a", ".", "b", "}}"))
+		}
+	}
+}
+
 func (p *c14) runRaw(res *fw.Result, j int) {
 	toks := c14Raw[j]
 	word := func(s string) bool {
@@ -307,6 +333,9 @@ func (p *c14) runRaw(res *fw.Result, j int) {
 					continue
 				}
 				tight := !(word(prev) && word(t[:1])) && !strings.ContainsAny(prev, "{}%") && !strings.ContainsAny(t, "{}%")
+				if prev == "}" && (t == "}" || t == "}}" || t == "." || t == "]" || t == ")") || t == "}" && (prev == "]" || prev == ")" || word(prev)) {
+					tight = true // (a closing brace merges with nothing either: }} inside a hash closes two hashes)
+				}
 				switch {
 				case kind == 1 && tight, kind == 3 && tight && k%2 == 0:
 				case kind == 2:
